@@ -102,6 +102,7 @@ fn main() {
             "C13" => vharness::checks::c13::run(tier),
             "C14" => vharness::checks::c14::run(tier),
             "C15" => vharness::checks::c15::run(tier),
+            "C18" => vharness::checks::c18::run(tier),
             other => {
                 eprintln!("unknown check {other}");
                 2
